@@ -164,6 +164,8 @@ func (db *RockDB) BitSetV2(ts int64, key []byte, offset int64, on int) (int64, e
 		return 0, err
 	}
 	if !ok {
+		// no live bitmap: an expired one must not contribute its old size
+		bmSize = 0
 		// convert old data to new
 		table, oldkey, err := convertRedisKeyToDBKVKey(key)
 		if err != nil {
